@@ -1474,13 +1474,15 @@ def values_columns(expression: exp.Expression) -> exp.Expression:
 
     if (
         isinstance(expression, exp.Values)
-        and not expression.alias
+        and not ((alias := expression.args.get("alias")) and alias.columns)
         and expression.find_ancestor(exp.Select)
         and (values := expression.find(exp.Tuple))
     ):
         num_columns = len(values.expressions)
         columns = [exp.Identifier(this=f"COLUMN{i + 1}", quoted=True) for i in range(num_columns)]
-        expression.set("alias", exp.TableAlias(this=exp.Identifier(this="_", quoted=False), columns=columns))
+        # a table alias without column names (VALUES (..) AS v) keeps its name
+        name = alias.this if alias and alias.this else exp.Identifier(this="_", quoted=False)
+        expression.set("alias", exp.TableAlias(this=name, columns=columns))
 
     return expression
 
